@@ -149,6 +149,9 @@ def cases(tier):
                 continue
             w = zw if ak == "zone" else win
             add(f"{ak}/{bk} {how}", akind=ak, bkind=bk, how=how, ylo=w[0], yhi=w[1])
+    # far from 1970 (float timestamps would lose the microseconds there)
+    add("same zone object sub far from the epoch", akind="zone", bkind="zone", how="sub", ylo=1804, yhi=1804, same=True)
+    add("utc/utc sub far from the epoch", akind="utc", bkind="utc", how="sub", ylo=9601, yhi=9603)
     if tier == "quick":
         add("utc/utc rsub_native", akind="utc", bkind="utc", how="rsub_native", ylo=win[0], yhi=win[1])
         add("zone/utc sub_native", akind="zone", bkind="utc", how="sub_native", ylo=zw[0], yhi=zw[1])
